@@ -480,6 +480,78 @@ def real_weights(m, wq, tn):
     return out
 
 
+def chain_case(rng):
+    """A long thin undiscounted instance (6..15 states): a corridor of single-successor states under the policy
+    that ends in an absorbing goal, a costly pit (value -inf, occupancy inf) or a free pit; a second action,
+    never taken by the policy, branches off here and there.  Some state is more than 2^floor(log2 n) steps
+    away from the end of the corridor."""
+    n = rng.choice([6, 7, 7, 11, 12, 13, 15])
+    K = rng.choice([1, 2, 2])
+    PD = 2
+    end_kind = rng.choice(["goal", "costly", "costly", "free"])
+    two_ends = n >= 7 and rng.random() < 0.5
+    order = list(range(n))
+    rng.shuffle(order)
+    ends = order[:2] if two_ends else order[:1]
+    corridor = order[len(ends):]
+    kinds = {ends[0]: end_kind}
+    if two_ends:
+        kinds[ends[1]] = rng.choice(["goal", "costly", "free"])
+    ab = [0] * n
+    avail = [[1] + [1 if rng.random() < 0.6 else 0 for _ in range(K - 1)] for _ in range(n)]
+    P = [[[0] * n for _ in range(K)] for _ in range(n)]
+    R = [[[0] * n for _ in range(K)] for _ in range(n)]
+    for e, kd in kinds.items():
+        if kd == "goal":
+            ab[e] = 1
+        for a in range(K):
+            P[e][a][e] = PD                      # pits loop; goals keep a ghost loop
+            R[e][a][e] = -1 if kd == "costly" else 0
+    for i, s in enumerate(corridor):
+        nxt = corridor[i + 1] if i + 1 < len(corridor) else ends[0]
+        P[s][0][nxt] = PD
+        R[s][0][nxt] = rng.choice([-2, -1, -1, 0])
+        for a in range(1, K):                    # the action the policy never takes
+            row = gen.rand_row(rng, n, PD)
+            P[s][a] = row
+            R[s][a] = [rng.choice([-2, -1, 0]) for _ in range(n)]
+    if two_ends:                                 # the other end is entered from the middle by the second action
+        s = corridor[len(corridor) // 2]
+        a = K - 1
+        if a > 0:
+            avail[s][a] = 1
+            P[s][a] = [0] * n
+            P[s][a][ends[1]] = PD
+    p0 = [0] * n
+    ID = rng.choice([1, 2, 4])
+    p0[corridor[0]] = ID
+    if ID > 1 and rng.random() < 0.6:
+        p0[corridor[0]] -= 1
+        p0[rng.choice(corridor[1:] + ends)] += 1
+    m = {"N": n, "K": K, "PD": PD, "GN": 1, "GD": 1, "ID": ID, "abs": ab, "avail": avail, "P": P, "R": R, "p0": p0}
+    m["gw"] = [list(rng.choice(rows_at(m, s))) if ab[s] else [0] * K for s in range(n)]
+    wq = [[0] * K for _ in range(n)]
+    for s in range(n):
+        if not ab[s]:
+            wq[s][0] = QD
+    m.update(allpols=0, pols=[wq], tinys=[zero_flags(m)], near1=0, g_kind=0, g0_kind=0, sibofs=0, chain=1)
+    m["hist"] = 1 if rng.random() < 0.3 else 0
+    sp, ap = list(range(1, n + 1)), list(range(1, K + 1))
+    if m["hist"]:
+        rng.shuffle(sp)
+        rng.shuffle(ap)
+    m["sp"], m["ap"] = sp, ap
+    rep = dict(MDP_REPS[rng.randrange(len(MDP_REPS))])
+    if rep["rep"] == "matrices" and not rep["explicit_list"] and not gen.ghost_closed(m):
+        rep["explicit_list"] = True
+    if m["hist"]:
+        rep["explicit_list"] = True
+        rep["relabel"] = rng.random() < 0.4
+    rep["absflag"] = rng.choice(["bool", "int", "npint"])
+    m["explicit"] = 1 if rep["explicit_list"] else 0
+    return {"m": m, "rep": rep}
+
+
 def n_records(m):
     return (len(all_policies(m)) if m["allpols"] else 0) + len(m["pols"])
 
@@ -489,6 +561,10 @@ def make_cases(rng, n_wanted, tier):
     representation}.  The number of (instance, policy) records TLC will emit is about n_wanted."""
     cases, total, rejected = [], 0, 0
     while total < n_wanted:
+        if len(cases) % 25 == 12:                # long thin chains (the 3x3 oracle does not apply: closed forms)
+            cases.append(chain_case(rng))
+            total += 1
+            continue
         f = FAMS[len(cases) % len(FAMS)]
         n_na = min(rng.choice([1, 2, 2, 3, 3]), f["nmax"])
         n_abs = rng.choice([0, 1, 1, 2])
@@ -567,6 +643,7 @@ def make_cases(rng, n_wanted, tier):
             rep["explicit_list"] = True      # both presentations list every state and action
             rep["relabel"] = rng.random() < 0.4
         m["explicit"] = 1 if rep["explicit_list"] else 0
+        m["chain"] = 0
         m["sibofs"] = 0
         # sibling: the same MDP with another discount, placed next in the batch (discount-change histories)
         sibling = None
@@ -787,7 +864,7 @@ WHAT = ("mc: oracle + evaluation machine over (instance, policy) pairs; all menu
         "on instances with <= 25 of them; policies with rare entries; second round of the machine on the "
         "permuted presentation for object-reuse histories")
 BATCH_FIELDS = ("N", "K", "PD", "GN", "GD", "ID", "abs", "avail", "P", "R", "p0", "gw", "allpols", "pols",
-                "tinys", "hist", "sp", "ap", "near1", "explicit", "sibofs")
+                "tinys", "hist", "sp", "ap", "near1", "explicit", "sibofs", "chain")
 
 
 def tlc_run(ctx, cases, tag="mc", coverage=False):
@@ -834,7 +911,7 @@ def crosscheck(m, wq, tn, r):
     worked on a surrogate: its whole record is checked against the surrogate's exact evaluation, and its
     structural verdicts and binding entries against the exact evaluation of the weights msdm receives."""
     N, K = m["N"], m["K"]
-    ex = exact(m, wq)
+    ex = exact(m, wq, wf=[[F(x, QD) for x in row] for row in wq]) if m.get("chain") else exact(m, wq)
     if ex is None:
         raise TLCFailure("python oracle: singular system")
     for s in range(N):
@@ -888,7 +965,7 @@ def judge_one(ctx, c, r, n, *, tamper=None, preps=None, sib=None):
     N, K = m["N"], m["K"]
     rare = any(any(row) for row in tn)
     near1 = bool(m.get("near1"))
-    if n % 3 == 0 or tamper or rare or near1:
+    if n % 3 == 0 or tamper or rare or near1 or m.get("chain"):
         crosscheck(m, wq, tn, r)
         ctx.count("oracle_crosschecks")
     exp = {"own": unpack(m, r)}
@@ -1016,6 +1093,8 @@ def judge_one(ctx, c, r, n, *, tamper=None, preps=None, sib=None):
             ctx.count("records_with_discount_change_history")
         if near1:
             ctx.count("records_with_discount_just_below_1")
+        if m.get("chain"):
+            ctx.count("records_on_long_chains")
         if any(E0["absfin"][s][a] and not any(m["P"][s][a][t] > 0 and t in ok_out["states"] for t in range(N))
                for s in ok_out["states"] for a in range(K)):
             ctx.count("records_with_absorbing_action_leading_outside_the_state_list")
@@ -1094,6 +1173,7 @@ def _single(case):
     m["tinys"] = [case.get("tn") or zero_flags(m)]
     m.setdefault("hist", 0)
     m.setdefault("near1", 0)
+    m.setdefault("chain", 0)
     m.setdefault("g_kind", 0)
     m.setdefault("explicit", 1 if case["case"]["rep"].get("explicit_list") else 0)
     m["sibofs"] = 0
